@@ -442,6 +442,18 @@ EGLPNUM_TYPENAME_QSLIB_INTERFACE int EGLPNUM_TYPENAME_QSopt_pivotin_row (
 	{
 		ILL_ERROR (rval, "pricing info not available in EGLPNUM_TYPENAME_QSopt_pivotin_row\n");
 	}
+	{
+		int i;
+		for (i = 0; i < rcnt; i++)
+		{
+			if (rlist[i] < 0 || rlist[i] >= p->qslp->nrows)
+			{
+				QSlog("EGLPNUM_TYPENAME_QSopt_pivotin_row called with bad row index %d", rlist[i]);
+				rval = 1;
+				ILL_CLEANUP;
+			}
+		}
+	}
 
 	rval = EGLPNUM_TYPENAME_ILLsimplex_pivotin (p->lp, p->pricing, rcnt, rlist,
 														 SIMPLEX_PIVOTINROW, &basismod);
@@ -469,6 +481,18 @@ EGLPNUM_TYPENAME_QSLIB_INTERFACE int EGLPNUM_TYPENAME_QSopt_pivotin_col (
 	if (p->pricing == 0)
 	{
 		ILL_ERROR (rval, "pricing info not available in QSopt_pivotin\n");
+	}
+	{
+		int i;
+		for (i = 0; i < ccnt; i++)
+		{
+			if (clist[i] < 0 || clist[i] >= p->qslp->nstruct)
+			{
+				QSlog("EGLPNUM_TYPENAME_QSopt_pivotin_col called with bad column index %d", clist[i]);
+				rval = 1;
+				ILL_CLEANUP;
+			}
+		}
 	}
 
 	rval = EGLPNUM_TYPENAME_ILLsimplex_pivotin (p->lp, p->pricing, ccnt, clist,
